@@ -38,7 +38,17 @@ CLAIM = {
             'at binary64, are compared with the real classes on every case: arguments the code hands to pinv / '
             'solve / svd / gmd, precoder, receive filter, encoded block, decoded block, guards; first-principles '
             'oracles (round trip, energy with unit-modulus symbols, W H = 1, normal equation + MSE perturbation, '
-            'MMSE-ZF distance bound, gmd contract, guards) run on the real code.',
+            'MMSE-ZF distance bound, gmd contract, guards) run on the real code. Objects as state machines '
+            '(Model/C04Obj.lean): after ANY history of set_channel_matrix / set_noise_var / encode / decode / '
+            'precoder-filter / SINR calls the state is exactly the last accepted channel and noise variance '
+            '(rejected calls and observations leave no trace), so every observation equals that of a freshly '
+            'configured object; a Blast/MRC object whose configured noise variance is None/0 recovers noise-free '
+            'data whatever it decoded before, and on one object the filter after set_noise_var(s) tends to the one '
+            'after set_noise_var(0|None). Seeded histories of 2-6 reconfigurations on ONE object per scheme (noise '
+            'only, channel only, both in either order, rejected arguments, decodes in between) are replayed step by '
+            'step on the model object (kernel results of each step tapped) and compared with a fresh object; the '
+            'filter decode() really applies (decoded identity block) is checked against the ZF / MMSE defining '
+            'equations of the CURRENT configuration, plus an SNR sweep s -> 0 then None on one object.',
     'note': 'Oracle-conditional: correctness of np.linalg.pinv / solve / svd and of the Givens sweep inside '
             'util.misc.gmd is a contract checked numerically on every case (Moore-Penrose conditions, A W = B, '
             'U S V^H = A with orthonormal factors, Q R P^H = A with unitary Q, P and upper-triangular R of constant '
@@ -490,8 +500,194 @@ def o_gmd(case):
     return None if why is None else (cls, why)
 
 
+# ---- object histories: one object, several reconfigurations (real code only) -------------
+def hist_ops_from_case(case):
+    out = []
+    for op in case['ops']:
+        k = op['op']
+        if k == 'sc':
+            out.append(('sc', dec(op['H'])))
+        elif k == 'nv':
+            out.append(('nv', op['v']))
+        elif k == 'rt':
+            out.append(('rt', dec(op['x'])))
+        elif k in ('flt', 'sinr'):
+            out.append((k, op['v']))
+    return out
+
+
+def used_filter(obj, nr):
+    """the receive filter decode() actually applies: decode the identity block"""
+    scheme = type(obj).__name__
+    d = np.asarray(obj.decode(np.eye(nr, dtype=complex)))
+    k = d.size // nr
+    return d.reshape((k, nr), order='F' if scheme in ('Blast', 'MRC') else 'C')
+
+
+def fresh_like(scheme, chan_arg, nv):
+    f = make(scheme, chan_arg)
+    if hasattr(f, 'set_noise_var'):
+        f.set_noise_var(nv)
+    return f
+
+
+def accepted(scheme, Harg):
+    """does set_channel_matrix of the class accept this argument (first principles, from the class docs)"""
+    Harg = np.asarray(Harg)
+    if scheme in ('blast', 'svd', 'gmd'):
+        return Harg.ndim == 2
+    if scheme == 'mrc':
+        return True
+    if scheme == 'mrt':
+        return Harg.ndim == 1 or Harg.shape[0] == 1
+    return Harg.ndim == 1 or Harg.shape[1] == 2
+
+
+def o_history(case):
+    """a reconfigured object behaves like a freshly configured one, its decode() uses the filter defined by the
+    CURRENT channel and noise variance (ZF / MMSE defining equations), and recovers noise-free data when the
+    noise variance is None / 0"""
+    scheme = case['scheme']
+    m = _mimo()
+    obj = make(scheme, dec(case['H0']))
+    cur_arg, cur_nv = dec(case['H0']), 0.0
+    last, since = 'construct', set()
+    fam = scheme in ('blast', 'mrc', 'svd', 'gmd')
+    with warnings.catch_warnings():
+        warnings.simplefilter('ignore')
+        for step_i, (k, a) in enumerate(hist_ops_from_case(case)):
+            if since:
+                last = {('c',): 'channel-only', ('n',): 'noise-only'}.get(tuple(sorted(since)), 'both')
+            cls = 'history:%s:after-%s' % (scheme, last)
+            where = 'step %d (%s): ' % (step_i, k)
+            if k == 'sc':
+                ok = accepted(scheme, a)
+                try:
+                    obj.set_channel_matrix(a)
+                    if not ok:
+                        return 'history:%s:guard' % scheme, where + 'accepted a channel the scheme cannot use'
+                    cur_arg = a
+                    since.add('c')
+                except ValueError:
+                    if ok:
+                        return 'history:%s:guard' % scheme, where + 'rejected a valid channel'
+                continue
+            if k == 'nv':
+                try:
+                    obj.set_noise_var(a)
+                    if not fam or (a is not None and a < 0):
+                        return 'history:%s:guard' % scheme, where + 'accepted noise variance %r' % (a,)
+                    cur_nv = 0.0 if a is None else a
+                    since.add('n')
+                except (ValueError, AttributeError):
+                    if fam and (a is None or a >= 0):
+                        return 'history:%s:guard' % scheme, where + 'rejected noise variance %r' % (a,)
+                continue
+            H2 = as2d(scheme, cur_arg)
+            nr, nt = H2.shape
+            c = cond2(H2) if min(H2.shape) else 1.0
+            f = fresh_like(scheme, cur_arg, cur_nv)
+            if k == 'rt':
+                x = a
+                try:
+                    e, ef = obj.encode(x), f.encode(x)
+                    y = H2 @ e
+                    d, df = np.asarray(obj.decode(y)), np.asarray(f.decode(y))
+                except Exception as ex:
+                    return cls, where + 'raised %s: %s' % (type(ex).__name__, str(ex)[:150])
+                ok, why = near(e, ef)
+                if not ok:
+                    return cls, where + 'encode differs from a fresh object: ' + why
+                sc = xscale(c, x)
+                ok, why = near(d, df, scale=sc)
+                if not ok:
+                    return cls, where + 'decode differs from a fresh object (noise_var=%r): %s' % (cur_nv, why)
+                if (not fam) or cur_nv == 0.0 or scheme == 'svd':
+                    ok, why = near(d, x, 1e-10, scale=sc)
+                    if not ok:
+                        return cls, where + 'noise-free round trip with noise_var=%r: %s' % (cur_nv, why)
+                if scheme in ('blast', 'mrc', 'gmd'):
+                    # defining equation of the filter decode() really used, for the CURRENT configuration
+                    G = used_filter(obj, nr) / math.sqrt(nt)
+                    Heq = H2 @ (np.asarray(f._calc_precoder(H2)) * math.sqrt(nt))
+                    if cur_nv > 0:
+                        A = Hm(Heq) @ Heq + cur_nv * np.eye(nt)
+                        ok, why = near(A @ G, Hm(Heq), 1e-9, scale=max(1.0, float(np.abs(A).max()))
+                                       * max(1.0, float(np.abs(G).max())) * nt * nt)
+                        if not ok:
+                            return cls, where + 'filter used by decode is not the MMSE filter for noise_var=%r: %s' % (cur_nv, why)
+                    else:
+                        ok, why = near(G @ Heq, np.eye(nt), 1e-10 * max(1.0, c))
+                        if not ok:
+                            return cls, where + 'filter used by decode is not the zero-forcing filter: ' + why
+            elif k == 'flt':
+                if scheme == 'alamouti':
+                    continue
+                try:
+                    W, G = obj._calc_precoder(obj._channel), obj._calc_receive_filter(obj._channel, a)
+                    Wf, Gf = f._calc_precoder(f._channel), f._calc_receive_filter(f._channel, a)
+                except Exception as ex:
+                    return cls, where + 'raised %s' % type(ex).__name__
+                for u, v, nm in ((W, Wf, 'precoder'), (G, Gf, 'filter')):
+                    ok, why = near(np.asarray(u), np.asarray(v), scale=max(1.0, c) * 4 * max(1.0, float(np.abs(np.asarray(v)).max())))
+                    if not ok:
+                        return cls, where + nm + ' differs from a fresh object: ' + why
+            elif k == 'sinr':
+                try:
+                    s1, s2 = np.asarray(obj.calc_linear_SINRs(a)), np.asarray(f.calc_linear_SINRs(a))
+                except Exception as ex:
+                    return cls, where + 'raised %s' % type(ex).__name__
+                ok, why = near(s1, s2, 1e-7)
+                if not ok:
+                    return cls, where + 'calc_linear_SINRs differs from a fresh object: ' + why
+            since = set()
+    return None
+
+
+def o_sweep(case):
+    """SNR sweep on ONE object: decode with decreasing noise variances, then None: the filter decode() uses tends
+    to the zero-forcing filter and the noise-free round trip comes back"""
+    scheme = case['scheme']
+    H = dec(case['H'])
+    H2 = as2d(scheme, H)
+    nr, nt = H2.shape
+    cls = 'sweep:%s:%s' % (scheme, shape_class(nr, nt))
+    x = dec(case['x'])
+    with warnings.catch_warnings():
+        warnings.simplefilter('ignore')
+        obj = make(scheme, H)
+        Wp = np.asarray(obj._calc_precoder(H2)) * math.sqrt(nt)
+        Heq = H2 @ Wp
+        sv = np.linalg.svd(Heq, compute_uv=False)
+        Gz = np.linalg.pinv(Heq)  # reference zero-forcing filter of the (equivalent) channel
+        inv_norm, wz, base = 1.0 / float(sv[-1]) ** 2, float(np.linalg.norm(Gz, 2)), float(sv[0]) ** 2
+        c = cond2(H2)
+        e = obj.encode(x)
+        y = H2 @ e
+        for k in case['exps']:
+            nv = base * 10.0 ** (-k)
+            obj.set_noise_var(nv)
+            obj.decode(y)
+            G = used_filter(obj, nr) / math.sqrt(nt)
+            dist = float(np.linalg.norm(G - Gz, 2))
+            bound = nv * inv_norm * wz
+            slack = 1e-12 * max(1.0, c) ** 2 * wz
+            if not (dist <= bound * (1 + 1e-6) + slack):
+                return cls, 'noise_var=%.3e: ||filter used by decode - W_zf|| = %.3e > %.3e' % (nv, dist, bound)
+        obj.set_noise_var(case.get('final'))
+        d = np.asarray(obj.decode(y))
+        ok, why = near(d, x, 1e-10, scale=xscale(c, x))
+        if not ok:
+            return cls, 'after the sweep, set_noise_var(%r) does not give back the noise-free round trip: %s' % (case.get('final'), why)
+        G = used_filter(obj, nr) / math.sqrt(nt)
+        ok, why = near(G @ Heq, np.eye(nt), 1e-10 * max(1.0, c))
+        if not ok:
+            return cls, 'after the sweep the filter used by decode is not zero forcing: ' + why
+    return None
+
+
 ORACLES = {'roundtrip': o_roundtrip, 'energy': o_energy, 'zf': o_zf, 'mmse': o_mmse, 'mmse-limit': o_mmse_limit,
-           'guard': o_reject, 'gmd': o_gmd}
+           'guard': o_reject, 'gmd': o_gmd, 'history': o_history, 'sweep': o_sweep}
 
 
 def run_oracle(ctx, call, case, key=None, nontrivial=True):
@@ -849,6 +1045,259 @@ def corr_guards(ctx, drv):
         ctx.branch('guard:' + ('error' if i.startswith('error') else 'ok'))
 
 
+# ---- object histories: correspondence with the state-machine model -------------------------
+def chan_tok(Harg):
+    Harg = np.asarray(Harg)
+    if Harg.ndim == 1:
+        return 'v:%d:%s' % (Harg.size, cline(Harg))
+    return 'm:%d:%d:%s' % (Harg.shape[0], Harg.shape[1], cline(Harg))
+
+
+def expected_calls(scheme, kind, nv_used, enc_ok=True):
+    k = 'solve' if (nv_used is not None and nv_used > 0) else 'pinv'
+    if scheme in ('blast', 'mrc'):
+        return [] if kind == 'enc' else [k]
+    if scheme == 'svd':
+        return {'enc': ['svd'] if enc_ok else [], 'dec': ['svd'], 'flt': ['svd', 'svd'], 'sinr': ['svd', 'svd']}[kind]
+    if scheme == 'gmd':
+        return {'enc': ['svd', 'gmd'] if enc_ok else [], 'dec': ['svd', 'gmd', k],
+                'flt': ['svd', 'gmd', 'svd', 'gmd', k], 'sinr': ['svd', 'gmd', 'svd', 'gmd', k]}[kind]
+    return []
+
+
+def kernel_fields(scheme, kind, log):
+    """key=data fields handing the recorded kernel results of one step to the model"""
+    f = []
+    for c in log:
+        if c[0] in ('pinv', 'solve'):
+            f.append('%s=%s' % (c[0], cline(c[3])))
+    svds = [c for c in log if c[0] == 'svd']
+    gmds = [c for c in log if c[0] == 'gmd']
+    if scheme == 'svd':
+        if kind == 'enc' and svds:
+            f.append('vh=' + cline(svds[0][3][2]))
+        elif kind == 'dec' and svds:
+            f += ['u=' + cline(svds[0][3][0]), 's=' + cline(svds[0][3][1])]
+        elif len(svds) == 2:
+            f += ['vh=' + cline(svds[0][3][2]), 'u=' + cline(svds[1][3][0]), 's=' + cline(svds[1][3][1])]
+    if scheme == 'gmd':
+        if kind == 'enc' and gmds:
+            f.append('p=' + cline(gmds[0][3][2]))
+        elif kind == 'dec' and gmds:
+            f += ['q=' + cline(gmds[0][3][0]), 'r=' + cline(gmds[0][3][1])]
+        elif len(gmds) == 2:
+            f += ['p=' + cline(gmds[0][3][2]), 'q=' + cline(gmds[1][3][0]), 'r=' + cline(gmds[1][3][1])]
+    return f
+
+
+def parse_out(o):
+    """reply field of the model -> ('error:X' | 'done' | 'mat' | 'vec' | 'two', arrays)"""
+    t = o.split(':')
+    if t[0] == 'error':
+        return o, None
+    if t[0] == 'done':
+        return 'done', None
+    if t[0] == 'mat':
+        return 'mat', [parse_c(t[3], (int(t[1]), int(t[2])))]
+    if t[0] == 'vec':
+        return 'vec', [parse_c(t[2], (int(t[1]),))]
+    if t[0] == 'two':
+        return 'two', [parse_c(t[3], (int(t[1]), int(t[2]))), parse_c(t[6], (int(t[4]), int(t[5])))]
+    return 'unparsable:' + o[:40], None
+
+
+def corr_history(ctx, b, case, ck):
+    """drive ONE real object through the history, tap every step, replay the same steps on the model object"""
+    scheme = case['scheme']
+    m = _mimo()
+    H0 = dec(case['H0'])
+    st, obj = call_impl(lambda: make(scheme, H0))
+    toks, impl = [], []       # model op tokens; impl (name, status, arrays, scale)
+    ctx.branch('hist:' + scheme)
+    if st != 'ok':
+        b.add('hist %s %s' % (scheme, chan_tok(H0)), lambda o: ctx.corr('history.construct', case, st, o, key=ck + ('c',)))
+        return
+    fam = scheme in ('blast', 'mrc', 'svd', 'gmd')
+    for k, a in hist_ops_from_case(case):
+        if k == 'sc':
+            st, _ = call_impl(lambda: obj.set_channel_matrix(a))
+            toks.append('sc;' + chan_tok(a))
+            impl.append(('set_channel', 'done' if st == 'ok' else st, None, None))
+            ctx.branch('hist-op:set_channel:' + ('ok' if st == 'ok' else 'rejected'))
+            continue
+        if k == 'nv':
+            st, _ = call_impl(lambda: obj.set_noise_var(a))
+            toks.append('nv;' + ('none' if a is None else cline([a])))
+            impl.append(('set_noise_var', 'done' if st == 'ok' else st, None, None))
+            ctx.branch('hist-op:set_noise_var:' + ('ok' if st == 'ok' else 'rejected'))
+            continue
+        H2 = obj._channel
+        nr, nt = H2.shape
+        c = cond2(H2) if min(H2.shape) else 1.0
+        nv_obj = getattr(obj, '_noise_var', None)
+        steps = []
+        if k == 'rt':
+            with Tap() as t:
+                e = call_impl(lambda: obj.encode(a))
+            steps.append(('enc', t.log, e, 'enc;%d;%s' % (a.size, cline(a)), None, e[0] == 'ok', None))
+            if e[0] == 'ok':
+                y = H2 @ e[1]
+                with Tap() as t:
+                    d = call_impl(lambda: obj.decode(y))
+                steps.append(('dec', t.log, d, 'dec;%d;%d;%s' % (y.shape[0], y.shape[1], cline(y)), nv_obj, True, xscale(c, a)))
+        elif k == 'flt':
+            with Tap() as t:
+                r = call_impl(lambda: (np.asarray(obj._calc_precoder(obj._channel)),
+                                       np.atleast_2d(np.asarray(obj._calc_receive_filter(obj._channel, a)))))
+            steps.append(('flt', t.log, r, 'flt;' + cline([a]), a, True, None))
+        else:
+            def f_sinr():
+                if scheme == 'alamouti':
+                    return np.atleast_1d(np.asarray(obj.calc_linear_SINRs(a)))
+                W = obj._calc_precoder(obj._channel)
+                G = obj._calc_receive_filter(obj._channel, a)
+                return np.atleast_1d(m.calc_post_processing_linear_SINRs(obj._channel, W, G, a))
+            with Tap() as t:
+                r = call_impl(f_sinr)
+            steps.append(('sinr', t.log, r, 'sinr;' + cline([a]), a, True, None))
+        for kind, log, res, tok, nv_used, enc_ok, scale in steps:
+            got = [c_[0] for c_ in log]
+            want = expected_calls(scheme, kind, nv_used, enc_ok) if res[0] == 'ok' or kind == 'enc' else got
+            if got != want:  # e.g. a cached filter: no kernel call where the code (and the model) recompute
+                ctx.corr('history.kernel-calls.' + kind, case, got, want, key=ck + ('calls', len(toks)))
+                return
+            toks.append(';'.join([tok] + kernel_fields(scheme, kind, log)))
+            impl.append((kind, res[0], res[1], scale))
+            ctx.branch('hist-op:' + kind)
+
+    def f(o):
+        parts = o.split('|')
+        if parts[0] != 'ok' or len(parts) != len(impl) + 1:
+            ctx.corr('history.run', case, 'ok, %d steps' % len(impl), o[:200], key=ck + ('run',))
+            return
+        for i, ((kind, st, val, scale), mo) in enumerate(zip(impl, parts[1:])):
+            tag, arrs = parse_out(mo)
+            name = 'history.%s.%s' % (scheme, kind)
+            key = ck + (i,)
+            if st != 'ok' and st != 'done' or arrs is None:
+                ctx.corr(name, case, st if st != 'ok' else 'value', tag if arrs is None else 'value', key=key)
+                continue
+            vals = list(val) if isinstance(val, tuple) else [val]
+            good = len(vals) == len(arrs)
+            why = 'arity'
+            for v, a_ in zip(vals, arrs):
+                va = np.asarray(v, dtype=complex)
+                if va.size == a_.size:
+                    va = va.reshape(a_.shape)
+                sc = scale
+                if kind == 'flt':
+                    sc = max(1.0, float(np.abs(va).max()) if va.size else 1.0) * 4
+                ok, why = near(va, a_, 1e-7 if kind == 'sinr' else RTOL, scale=sc)
+                good = good and ok
+                if not ok:
+                    break
+            ctx.corr(name, case, 'match' if good else 'impl step %d: %s' % (i, why), 'match', key=key)
+    b.add('hist %s %s %s' % (scheme, chan_tok(H0), ' '.join(toks)), f)
+
+
+def gen_history(rng, g, scheme, max_n, n_reconf=None):
+    """2-6 reconfigurations of one object (noise variance only / channel only / both in either order), with
+    observations in between; a few rejected arguments"""
+    fam = scheme in ('blast', 'mrc', 'svd', 'gmd')
+
+    def chan(valid=True):
+        if scheme in ('blast', 'svd', 'gmd'):
+            nt = rng.randint(1, max_n)
+            nr = rng.randint(nt, max_n)
+            H = g.channel(nr, nt)[0]
+            return H if valid else H[:, 0]
+        if scheme == 'mrc':
+            h = g.channel(rng.randint(1, max_n), 1)[0]
+            return h.reshape(-1) if rng.chance(0.5) else h
+        if scheme == 'mrt':
+            h = g.channel(rng.randint(1, max_n), 1)[0].reshape(-1).astype(complex)
+            if not valid:
+                return np.vstack([h, h])
+            return h if rng.chance(0.5) else h.reshape(1, -1)
+        H = g.channel(max(rng.randint(1, max_n), 2), 2)[0]
+        H = H[:rng.randint(1, H.shape[0]), :]
+        if not np.any(H):
+            H = H + 1.0
+        if not valid:
+            return np.hstack([H, H[:, :1]])
+        return H.reshape(-1) if (H.shape[0] == 1 and rng.chance(0.5)) else H
+
+    def noise(Hc):
+        r = rng.uniform()
+        sc = float(np.abs(Hc).max()) ** 2
+        if r < 0.2:
+            return None
+        if r < 0.4:
+            return 0.0
+        if r < 0.45:
+            return -10.0 ** rng.uniform(-3, 0)
+        return 10.0 ** rng.uniform(-6, 1) * sc
+
+    H0 = chan()
+    cur = H0
+    ops = []
+
+    def observe():
+        nt = as2d(scheme, cur).shape[1]
+        L = rng.choice([1, 2, 3])
+        n = 2 * L if scheme == 'alamouti' else (nt * L if scheme in ('blast', 'svd', 'gmd') else L)
+        out = [{'op': 'rt', 'x': enc(g.data(n)[0])}]
+        if rng.chance(0.4):
+            out.append({'op': 'flt', 'v': 0.0 if rng.chance(0.3) else 10.0 ** rng.uniform(-4, 1) * float(np.abs(cur).max()) ** 2})
+        if rng.chance(0.4):
+            out.append({'op': 'sinr', 'v': 10.0 ** rng.uniform(-4, 1) * float(np.abs(cur).max()) ** 2})
+        rng.shuffle(out)
+        return out
+    ops += observe()
+    for _ in range(n_reconf or rng.randint(2, 6)):
+        kind = rng.choice(['nv', 'sc', 'nv-sc', 'sc-nv', 'nv'] if fam else ['sc', 'sc', 'sc', 'nv'])
+        for part in kind.split('-'):
+            if part == 'nv':
+                ops.append({'op': 'nv', 'v': noise(cur)})
+            else:
+                valid = not rng.chance(0.1)
+                Hn = chan(valid)
+                ops.append({'op': 'sc', 'H': enc(Hn)})
+                if valid:
+                    cur = Hn
+        ops += observe()
+    return {'scheme': scheme, 'H0': enc(H0), 'ops': ops}
+
+
+SCHEMES = ('blast', 'mrc', 'mrt', 'svd', 'gmd', 'alamouti')
+
+
+def histories(ctx, g, reps, max_n):
+    """correspondence + fresh-object oracle on seeded histories, every scheme"""
+    drv = core.Driver(DRIVER)
+    b = Batch(drv)
+    rng = ctx.rng
+    idx = 0
+    for rep in range(reps):
+        for scheme in SCHEMES:
+            idx += 1
+            case = gen_history(rng, g, scheme, max_n)
+            corr_history(ctx, b, case, ('hist', idx))
+            run_oracle(ctx, 'history', case, key=('hist-o', idx))
+        for scheme in ('blast', 'mrc', 'gmd'):
+            idx += 1
+            nt = 1 if scheme == 'mrc' else rng.randint(1, max_n)
+            nr = rng.randint(nt, max_n)
+            H = g.channel(nr, nt)[0]
+            x = g.data(nt * 2)[0]
+            run_oracle(ctx, 'sweep', {'scheme': scheme, 'H': enc(H.reshape(-1) if scheme == 'mrc' and rng.chance(0.5) else H),
+                                      'x': enc(x), 'exps': [2, 4, 8, 12], 'final': rng.choice([None, 0.0])},
+                       key=('sweep', idx))
+        if len(b.items) > 300:
+            b.flush()
+    b.flush()
+
+
 def shapes(max_n):
     return [(nr, nt) for nt in range(1, max_n + 1) for nr in range(nt, max_n + 1)]
 
@@ -1036,10 +1485,13 @@ def check(ctx):
     g = Gen(ctx.rng.fork('gen'))
     ctx.required_branches = ['corr:blast:zf', 'corr:blast:mmse', 'corr:mrc:zf', 'corr:mrt', 'corr:svd:square',
                              'corr:svd:tall', 'corr:gmd:zf', 'corr:gmd:mmse', 'corr:alamouti', 'guard:error',
-                             'guard:ok', 'contract-ok:pinv', 'contract-ok:solve', 'contract-ok:svd', 'contract-ok:gmd']
+                             'guard:ok', 'hist:blast', 'hist:mrc', 'hist:mrt', 'hist:svd', 'hist:gmd', 'hist:alamouti',
+                             'hist-op:set_noise_var:ok', 'hist-op:set_channel:ok', 'hist-op:set_channel:rejected', 'hist-op:dec',
+                             'contract-ok:pinv', 'contract-ok:solve', 'contract-ok:svd', 'contract-ok:gmd']
     try:
         small_scope(ctx)
         correspondence(ctx, g, 15 if quick else 150, max_n)
+        histories(ctx, Gen(ctx.rng.fork('hist')), 25 if quick else 150, max_n)
     except core.Infra as e:
         if not ctx.broken:
             raise
